@@ -535,8 +535,12 @@ public:
           // Important to assign to a local variable (i.e. make a copy)
           // Else, for tainted_volatile, this will allow a
           // time-of-check-time-of-use attack
+          // Read the pointee through the sandbox's representation of the type
+          // (its size/encoding may differ from the application's), using the
+          // pointer value that was checked above
+          auto val_checked = tainted<T, T_Sbx>::internal_factory(val);
           auto val_copy = std::make_unique<T_Deref>();
-          *val_copy = *val;
+          *val_copy = (*val_checked).get_raw_value();
           return verifier(std::move(val_copy));
         }
       }
